@@ -251,6 +251,20 @@ def pfxEditShuts : Bool → List FamEdit → Bool
       (if famOver f then pfxEditShuts true r else pfxEditShuts reach r)
     else pfxEditShuts reach r
 
+/-- bgp.ShouldHardReset(subcode, false): the Cease subcodes that are to go out as Hard Reset -/
+def shouldHardReset (sub : Nat) : Bool := sub == 1 || sub == 2 || sub == 3 || sub == 9
+
+/-- notification support of graceful restart (RFC 8538) is negotiated iff graceful restart and
+    notification-enabled are configured locally AND the peer's graceful-restart capability carries
+    the N bit (fsm.stateChange: GracefulRestart.State.NotificationEnabled) -/
+def nNegotiated (grLocal notifLocal peerGR peerN : Bool) : Bool := grLocal && notifLocal && peerGR && peerN
+
+/-- the convertNotification closure of established(): what goes on the wire for a NOTIFICATION
+    (code, sub) the daemon originates on an established session when `n` = notification support
+    negotiated.  Every NOTIFICATION established() writes passes through it. -/
+def convertNotification (n : Bool) (code sub : Nat) : Nat × Nat :=
+  if n && code == 6 && shouldHardReset sub then (6, 9) else (code, sub)
+
 /-- every way back to IDLE: fsmHandler.loop stores the state, idle() starts its timer with the
     current fsm.idleHoldTime; a PeerDown drops the Adj-RIB-In (no graceful restart). -/
 def toIdle (s : St) (idleHold : Nat) : St × List Out :=
